@@ -9,9 +9,16 @@ Tie
         and the harness executes that text as plain Python (transcription, flagged in TRUSTED),
       - np.digitize, cyclecount.getbins, _binify (with / without ensure_boundaries), binify
         (scalar / explicit bins, right, check_bounds), sigcount;
+      - getbins with an integer count (`autobins` stream): edges, end-point nudges, strict
+        monotonicity, the bin of every datum (data on interior edges, on both ends, constant
+        data, one and two samples, both `right` settings);
   * numeric/exact correspondence of the per-frequency bookkeeping of fdepsd.fdepsd (serial loop)
     and of fdepsd._dofde (the worker, driven directly with plain arrays): Amax, BinAmps, Count,
     BinCount, Df4/8/12 against Model/Fde on the cycle tables of the filtered responses.
+  * worker stream: Model/FdePsd (`Fde.fdeFreq`: SRSmax, Var, findap -> rainflow, Amax, BinAmps, Count,
+    BinCount, the G2max loop, Df_b, Dt_b, sig2_b, G1..G12, Gmax, the pvelo rescaling of Dt_b) run at
+    Float on the implementation's own filtered response; srs, Amax, binamps, count, bincount must
+    agree bit for bit, var, di_sig, psd, peakamp, var_test, di_test to 1e-9 (element-wise relative).
 Search: the property restated on the API (never through the Lean model).
 """
 import itertools
@@ -34,7 +41,7 @@ sys.path.insert(0, os.path.join(os.path.dirname(os.path.dirname(os.path.abspath(
 from translate import c10_findap_numba as _tr  # noqa: E402
 
 ID = "C10"
-LEAN_MODULES = ["PyYetiVerif.Props.C10", "PyYetiVerif.Audit.C10"]
+LEAN_MODULES = ["PyYetiVerif.Props.C10", "PyYetiVerif.Props.C10Fde", "PyYetiVerif.Audit.C10"]
 AUDIT_FILE = "PyYetiVerif/Audit/C10.lean"
 THEOREMS = ["PyYetiVerif.C10." + n for n in (
     "seq_first_selected seq_alternates seq_extremes_within_two_stol seq_end_rule_counterexample "
@@ -42,15 +49,23 @@ THEOREMS = ["PyYetiVerif.C10." + n for n in (
     "default_drift_counterexample variants_differ_counterexample digitize_spec binify_places "
     "binify_conserves cum_count_antitone count_col0_total bincount_sum_total "
     "G2_ge_G1 "
+    "auto_bins_cover binify_auto_conserves amax_le_srs bincount_spec damage_def damage_per_cycle table_scaling "
+    "test_damage_positive test_variance_reproduces_internal test_variance_reproduces test_variance_pvelo_factor "
+    "test_variance_pvelo_counterexample G_b_monotone_in_damage G2_ge_G1_loop psd_quadratic_scaling cycle_table_scaling "
+    "psd_quadratic_scaling_signal "
 ).split()]
 TRUSTED = [
-    "correspondence harness harness/props/c10.py (exact comparison on dyadic inputs; numeric 1e-9 for fdepsd sums)",
+    "correspondence harness harness/props/c10.py (exact comparison on dyadic inputs; bit-for-bit on srs/Amax/binamps/count/bincount "
+    "and 1e-9 element-wise relative on var/di_sig/psd/peakamp/var_test/di_test in the fdepsd worker stream)",
     "the numba-only variant of findap is source text here (numba absent): it is executed as a plain-Python "
     "transcription produced by harness/translate/c10_findap_numba.py; numba's own compilation semantics are not exercised",
     "np.digitize / np.linspace / np.sign / np.diff follow their executable models (digitize and linspace are compared on every run)",
     "scipy.signal.lfilter, srs coefficient functions, detrend/windowends/butter/resample are inputs to the fdepsd "
-    "bookkeeping model (their own properties are C03/C19)",
-    "sig2_b, G1..G12 formulas (log, sqrt, fractional powers) are checked by the API oracle only, not modelled in Lean",
+    "bookkeeping model (their own properties are C03/C19): the model starts from the filtered response; that scaling the input "
+    "signal scales the filtered response is taken from lfilter's linearity and sampled by the oracle's x4 run only",
+    "Lean's Float.log/sqrt/pow (C library) vs numpy's log/sqrt/power and np.var's pairwise summation vs the model's sequential sum: "
+    "compared at 1e-9; the theorems about sig2_b, G1..G12, Dt_b are over the reals (Real.log, Real.sqrt, Real.rpow) and say "
+    "nothing about rounding",
 ]
 RULE = (
     "findap: all signals over {0..3} of length 1..6 (7 thorough) x 5 tolerances plus seeded dyadic signals "
@@ -58,15 +73,20 @@ RULE = (
     "tolerances {0,1e-6,1/1024,0.01,1/16,0.1,1/4,0.3,0.5,1,1.5,-0.01}; one case = one (signal, tol) compared on "
     "both variants; non-trivial = at least one sub-tolerance step or a plateau or a selected interior "
     "reversal; binning: dyadic cycle tables with values on and off bin edges and outside the bins x right x "
-    "ensure/check_bounds x scalar/explicit bins; non-trivial = some cycle on an edge or out of range; fdepsd: "
-    "option grid resp x nbins x T0 x rolloff x hpfilter x winends on seeded random signals, one case = one "
-    "frequency row; distinct by the canonical input"
+    "ensure/check_bounds x scalar/explicit bins; non-trivial = some cycle on an edge or out of range; autobins: bin count in "
+    "{1,2,3,4,5,8,12} x dyadic step x data = both ends + points on interior edges and bin centres | constant data | one sample | two "
+    "samples x right; fdepsd: option grid resp x nbins x T0 x rolloff x hpfilter x winends on seeded random signals, one case = one "
+    "frequency row; worker stream: the same grid (other salt) plus dyadic signals through an identity SDOF filter (cycles exactly "
+    "on bin levels, constant-amplitude tables, nbins in {1,2,4,8,16}, both resp); distinct by the canonical input"
 )
 ASSUMPTIONS = [
     "float arithmetic on the generated dyadic inputs is exact; (signal, tol) pairs whose float stol would decide a "
     "comparison differently from the exact product are skipped and counted",
-    "fdepsd rows in which a cycle amplitude lies within 1e-12 (relative) of a bin level are skipped and counted",
+    "fdepsd rows in which a cycle amplitude lies within 1e-12 (relative) of a bin level are skipped and counted in the Rat-model "
+    "stream (the Float worker stream needs no such skip: it performs the same IEEE operations)",
     "scalar `bins` >= 1; an explicit `bins` vector of length 1 is a scalar by the code's own rule",
+    "fdepsd formulas: f*T0 > 1 for resp='absacce' (ln N0 > 0 and Dt_b > 0: proved test_damage_positive), f*T0 > 0 and != 1 for 'pvelo'; "
+    "Q > 0, f > 0; scaling factor c > 0",
 ]
 PARTIAL = (
     "default findap: alternation/extremes proved only under NoSubTolDrift (finding F4; necessity proved by "
@@ -74,15 +94,25 @@ PARTIAL = (
     "2*stol — within stol is false (seq_end_rule_counterexample, finding F22) and no stol-strength partial theorem is "
     "proved; the variant can fail outright (seq_unbound_counterexample, F14); 'both variants select the same set' is not "
     "proved: false even without drift (variants_differ_counterexample, F23), the agreement hypothesis (no drift and no "
-    "return within stol of a run head) is used by the oracle's classification only; auto_bins_cover, amax_le_srs, damage_def, "
-    "test_variance_reproduces, psd_quadratic_scaling are checked by the API oracle only (not proved); binify_conserves "
-    "takes 'every cycle lies in some bin interval' as its hypothesis"
+    "return within stol of a run head) is used by the oracle's classification only; auto_bins_cover / binify_auto_conserves are "
+    "proved over exact arithmetic: in doubles the end-point nudge 0.001*(mx-mn) can be absorbed by rounding (new finding "
+    "getbins-auto-nudge-absorbed-by-rounding, relative data spread below ~1e-13), outside that family the float edges are tied by "
+    "the exact autobins stream; test_variance_reproduces is proved for resp='absacce' and for the Dt_b the code solves with; for "
+    "resp='pvelo' the RETURNED di_test satisfies the relation only up to the factor 2**(b/2) (test_variance_pvelo_factor, "
+    "test_variance_pvelo_counterexample; finding F25 stays open); psd_quadratic_scaling is proved from the filtered response on "
+    "(psd_quadratic_scaling_signal: findap + rainflow + all bookkeeping) for c > 0 — the linearity of lfilter/detrend/windowends/"
+    "butter/resample in front of it is sampled by the oracle's x4 run only, c < 0 is not treated; G2_ge_G1_loop assumes every "
+    "examined level's count is below the total (equality makes the code divide by zero: G2 = inf in doubles, still >= G1)"
 )
 MANIFEST = {
-    "level_text": "proof (partial for default findap: known finding F4)",
-    "level_note": "selection and binning are modelled exactly over Rat; fdepsd bookkeeping exactly, its transcendental "
-                  "formulas by oracle only",
-    "technique": "Lean 4 theorems about executable models + exact correspondence + ast transcription of the numba variant",
+    "level_text": "proof (partial for default findap: known finding F4; fdepsd test-variance relation for pvelo: known finding F25)",
+    "level_note": "selection and binning are modelled exactly over Rat (auto bins: construction, strict monotonicity and coverage "
+                  "proved); everything fdepsd computes per frequency after lfilter is one polymorphic Lean definition, proved about "
+                  "over the reals (amax_le_srs, bincount_spec, damage_def, damage_per_cycle, test_variance_*, G_b_monotone_in_damage, "
+                  "G2_ge_G1_loop, psd_quadratic_scaling*) and run at Float against every returned table; only tied/measured: "
+                  "lfilter and the signal pre-processing, libm rounding of log/sqrt/pow",
+    "technique": "Lean 4 theorems about executable models + exact correspondence + Float run of the same definitions (numeric 1e-9) "
+                 "+ ast transcription of the numba variant",
 }
 
 F4 = "findap-default-subtolerance-drift"
@@ -90,6 +120,7 @@ F14 = "findap-numba-variant-nxt-unbound"
 N1 = "findap-numba-variant-end-rule-drops-held-extreme"
 N2 = "findap-variants-differ-step-returns-within-stol-of-run-head"
 N3 = "fdepsd-pvelo-var-test-relation-factor-2pow-b-half"
+N4 = "getbins-auto-nudge-absorbed-by-rounding"  # NEW finding (this round): p = 0.001*(mx-mn) below half an ulp of the end point
 
 TOLS = [0.0, 1e-6, 1 / 1024, 0.01, 1 / 16, 0.1, 0.25, 0.3, 0.5, 1.0, 1.5, -0.01]
 
@@ -525,6 +556,94 @@ def _corr_binning(ctx, drv):
             "binify:table", "binify:value-error", "binify:index-error", "sigcount:table"]
 
 
+# getbins with an integer count: construction, nudges, coverage --------------------------------
+
+def _autobin_cases(ctx, n):
+    """(nbins, data, right, kind); dyadic data placed on the interior edges, on both ends, strictly inside; constant data; one and
+    two samples; `mx`, `mn` are taken from the data as `binify` does."""
+    rng = ctx.rng
+    out = [(4, [4.0, 12.0, 6.0, 8.0, 10.0], True, "edges"), (4, [4.0, 12.0, 6.0, 8.0, 10.0], False, "edges"),
+           (1, [3.0], True, "one-sample"), (1, [3.0], False, "one-sample"), (5, [-2.5], True, "one-sample"),
+           (2, [1.0, 1.0], False, "constant"), (3, [0.0, 0.0, 0.0], True, "constant"), (8, [-7.25] * 4, True, "constant"),
+           (2, [1.0, 2.0], True, "two-samples"), (7, [2.0, 1.0], False, "two-samples"), (1, [0.0, 8.0], True, "two-samples")]
+    for _ in range(n):
+        right = rng.random() < 0.5
+        r = rng.random()
+        if r < 0.15:
+            v = rng.randint(-64, 64) / 8
+            out.append((rng.choice([1, 2, 3, 4, 5, 8, 12]), [v] * rng.randint(1, 5), right, "constant" if rng.random() < 0.7 else "one-sample"))
+            if out[-1][3] == "one-sample":
+                out[-1] = (out[-1][0], [v], right, "one-sample")
+            continue
+        nb = rng.choice([1, 2, 3, 4, 5, 8, 12])
+        step = rng.choice([0.25, 0.5, 1.0, 3.0])
+        mn = rng.randint(-64, 64) / 8
+        mx = mn + nb * step
+        if r < 0.3:
+            data = [mn, mx] if rng.random() < 0.5 else [mx, mn]
+            kind = "two-samples"
+        else:
+            data = [mn, mx] + [mn + step * rng.randint(0, 2 * nb) / 2 for _ in range(rng.randint(1, 8))]
+            rng.shuffle(data)
+            kind = "edges"
+        out.append((nb, data, right, kind))
+    return out
+
+
+def _corr_autobins(ctx, drv):
+    """exact stream: the integer-count branch of getbins against Binify.getbinsScalar (edges; the un-nudged end and the dyadic
+    interior edges bit-for-bit, the nudged end to 1e-15 and strictly beyond the data), and np.digitize on the implementation's
+    edges against the model's digitize on the model's edges for every datum (data on edges included)."""
+    from pyyeti import cyclecount
+
+    cases = _autobin_cases(ctx, ctx.pick(400, 4000))
+    rep = drv.ask(["ab %d %d | %s" % (nb, right, _frs(data)) for nb, data, right, _ in cases])
+    for (nb, data, right, kind), r in zip(cases, rep):
+        inp = {"bins": nb, "data": data, "right": right}
+        mx, mn = max(data), min(data)
+        on_edge = False
+        try:
+            bb = np.asarray(cyclecount.getbins(nb, mx, mn, right), dtype=float)
+            idx = np.digitize(np.array(data), bb, right=right).tolist()
+        except Exception as e:
+            ctx.case(("ab", nb, tuple(data), right), branch="autobins:" + kind)
+            ctx.disagree("getbins-auto", inp, repr(e)[:200], r[:200])
+            continue
+        es, ix, cv = r.split("|")
+        want = [Fraction(t) for t in es.split()]
+        widx = [int(t) for t in ix.split()]
+        ok = len(bb) == len(want) == nb + 1
+        if ok:
+            lo, hi = (mn, mx) if mx != mn else (mn - 0.5, mx + 0.5)
+            sc = Fraction(abs(lo) + abs(hi) + 1)
+            for k, (a, w) in enumerate(zip(bb, want)):
+                nudged = (k == 0 and right) or (k == nb and not right)
+                dyadic = w.denominator & (w.denominator - 1) == 0
+                if nudged:
+                    ok = ok and abs(Fraction(float(a)) - w) <= Fraction(1, 10 ** 15) * sc and ((a < lo) if right else (a > hi))
+                elif dyadic:
+                    ok = ok and Fraction(float(a)) == w
+                    on_edge = on_edge or (0 < k < nb and float(a) in data)
+                else:
+                    ok = ok and abs(Fraction(float(a)) - w) <= Fraction(1, 10 ** 15) * sc
+            ok = ok and bool(np.all(np.diff(bb) > 0))
+        ctx.case(("ab", nb, tuple(data), right), nontrivial=True, branch="autobins:" + kind)
+        ctx.count("autobins:right=%d" % right)
+        if on_edge:
+            ctx.count("autobins:datum-on-interior-edge")
+        if nb == 1:
+            ctx.count("autobins:single-bin")
+        if not ok:
+            ctx.disagree("getbins-auto-edges", inp, bb.tolist(), [float(w) for w in want])
+        elif idx != widx:
+            ctx.disagree("getbins-auto-digitize", inp, idx, widx)
+        elif "0" in cv.split():
+            # the model itself says a datum is not covered: contradicts the theorem auto_bins_cover (cannot happen)
+            ctx.disagree("getbins-auto-cover(model)", inp, idx, cv)
+    return ["autobins:edges", "autobins:constant", "autobins:one-sample", "autobins:two-samples", "autobins:right=0", "autobins:right=1",
+            "autobins:datum-on-interior-edge", "autobins:single-bin"]
+
+
 # fdepsd ---------------------------------------------------------------------------------
 
 def _fde_grid(ctx, n, salt):
@@ -760,12 +879,143 @@ def _corr_fdepsd(ctx, drv):
             "fdepsd:winends=auto", "fdepsd:winends=None", "fdepsd:winends=dict"]
 
 
+# fdepsd: the whole per-frequency worker at Float ------------------------------------------
+
+def _bits(x):
+    return " ".join(str(int(v)) for v in np.ascontiguousarray(np.atleast_1d(np.asarray(x, dtype=np.float64))).view(np.uint64))
+
+
+def _unbits(s):
+    return np.array([int(t) for t in s.split()], dtype=np.uint64).view(np.float64)
+
+
+def _same(a, b):
+    """bit-for-bit equal doubles (NaN equals NaN)"""
+    a, b = np.asarray(a, float), np.asarray(b, float)
+    return a.shape == b.shape and bool(np.all((a == b) | (np.isnan(a) & np.isnan(b))))
+
+
+def _relclose(a, b, tol=1e-9):
+    """element-wise |a-b| <= tol*|b| (equal infinities / NaNs agree)"""
+    a, b = np.asarray(a, float), np.asarray(b, float)
+    if a.shape != b.shape:
+        return False
+    with np.errstate(invalid="ignore"):
+        ok = (a == b) | (np.isnan(a) & np.isnan(b)) | (np.abs(a - b) <= tol * np.abs(b))
+    return bool(np.all(ok))
+
+
+_PSDROW = ["g1", "g2", "g4", "g8", "g12", "pk2", "pk4", "pk8", "pk12", "v4", "v8", "v12",
+           "dt4", "dt8", "dt12", "dto4", "dto8", "dto12"]
+
+
+def _parse_ff(r):
+    head, lv, ct, bc, df, ps = r.split("|")
+    h = _unbits(head)
+    return dict(srs=h[0], var=h[1], amax=h[2], g2max=h[3], levels=_unbits(lv), count=_unbits(ct),
+                bincount=_unbits(bc), df=_unbits(df), **dict(zip(_PSDROW, _unbits(ps))))
+
+
+def _ff_line(resp, Q, f, T0, nb, resphist):
+    return "ff %s %s %s %s %d %s | %s" % ("a" if resp == "absacce" else "p", _bits(Q), _bits(f), _bits(T0), nb,
+                                          _bits(1e-6), _bits(resphist))
+
+
+def _cmp_ff(ctx, tag, inp, out, j, m, worker=None):
+    """every returned table of fdepsd (row j) against the Float run of Fde.fdeFreq"""
+    bad = []
+    exact = [("srs", out.srs.values[j], m["srs"]), ("amp(G1 column)=Amax", out.peakamp.values[j, 0], m["amax"]),
+             ("binamps", out.binamps.values[j], m["levels"]), ("count", out.count.values[j], m["count"]),
+             ("bincount", out.bincount.values[j], m["bincount"])]
+    if worker is not None:
+        exact += [("worker(_dofde).BinAmps", worker["binamps"][j], m["levels"]), ("worker(_dofde).Count", worker["count"][j], m["count"])]
+        if "srs" in worker:
+            exact += [("worker(_dofde).srs", worker["srs"][j], m["srs"]), ("worker(_dofde).Amax", worker["amax"][j], m["amax"])]
+    for name, a, b in exact:
+        if not _same(a, b):
+            bad.append((name, a, b))
+    numeric = [("var", out.var.values[j], m["var"]), ("di_sig", out.di_sig.values[j], m["df"]),
+               ("psd", out.psd.values[j], [m[k] for k in ("g1", "g2", "g4", "g8", "g12")]),
+               ("amp(peakamp G2..G12)", out.peakamp.values[j, 1:], [m[k] for k in ("pk2", "pk4", "pk8", "pk12")]),
+               ("var_test", out.var_test.values[j], [m["v4"], m["v8"], m["v12"]]),
+               ("di_test", out.di_test.values[j], [m["dto4"], m["dto8"], m["dto12"]])]
+    if worker is not None and "var" in worker:
+        numeric.append(("worker(_dofde).var", worker["var"][j], m["var"]))
+    for name, a, b in numeric:
+        if not _relclose(a, b):
+            bad.append((name, a, b))
+    for name, a, b in bad:
+        ctx.disagree("fdepsd-%s-%s" % (tag, name), inp, np.asarray(a, float).ravel()[:8].tolist(), np.asarray(b, float).ravel()[:8].tolist())
+    return not bad
+
+
+def _corr_fde_worker(ctx, drv):
+    """numeric tie of Model/FdePsd (`Fde.fdeFreq` run at Float) to fdepsd.fdepsd and fdepsd._dofde: the model is fed the
+    implementation's own filtered response (same public helpers) and must reproduce every returned table."""
+    from pyyeti import fdepsd, srs
+    import scipy.signal as signal
+
+    req, meta = [], []
+    for sig, sr, freq, Q, opts in _fde_grid(ctx, ctx.pick(30, 240), 14):
+        inp0 = {"sr": sr, "freq": list(map(float, freq)), "Q": Q, "opts": {k: str(v) for k, v in opts.items()}}
+        try:
+            out = fdepsd.fdepsd(sig, sr, freq, Q, parallel="no", **opts)
+            coeffunc = srs._process_inputs(opts["resp"], "abs", None, "primary")[0]
+            LF, nb = len(freq), opts["nbins"]
+            fdepsd.WN_, fdepsd.SIG_ = 2 * np.pi * out.freq, out.sig
+            fdepsd.ASV_, fdepsd.Count_ = np.zeros((3, LF)), np.zeros((LF, nb))
+            fdepsd.BinAmps_ = np.zeros((LF, nb)) + np.arange(nb, dtype=float) / nb
+            for j in range(LF):
+                fdepsd._dofde((j, (coeffunc, Q, 1 / out.sr, False)))
+        except Exception as e:
+            ctx.disagree("fdepsd-raises", inp0, repr(e)[:300], "a result")
+            continue
+        worker = dict(amax=fdepsd.ASV_[0].copy(), srs=fdepsd.ASV_[1].copy(), var=fdepsd.ASV_[2].copy(),
+                      binamps=fdepsd.BinAmps_.copy(), count=fdepsd.Count_.copy())
+        for j, f in enumerate(out.freq):
+            b, a = coeffunc(Q, 1 / out.sr, 2 * np.pi * f)
+            resphist = signal.lfilter(b, a, out.sig)
+            req.append(_ff_line(opts["resp"], Q, f, opts["T0"], nb, resphist))
+            meta.append(("grid", dict(inp0, row=j, nsig=int(out.sig.size)), out, j, worker, opts["resp"], nb))
+    # dyadic signals through an identity SDOF filter: cycles exactly on the bin levels, constant-amplitude tables
+    for k, (sig, nb) in enumerate(_exact_signals(ctx, ctx.pick(60, 600), 15)):
+        resp = ("absacce", "pvelo")[k % 2]
+        try:
+            out, wcount, wamps = _run_exact(sig, nb, resp)
+        except Exception as e:
+            ctx.disagree("fdepsd-exact-raises", {"sig": sig.tolist(), "nbins": nb}, repr(e)[:300], "a result")
+            continue
+        for j, f in enumerate(out.freq):
+            req.append(_ff_line(resp, 10.0, f, 60.0, nb, sig))
+            meta.append(("exact", {"exact_sig": sig.tolist(), "nbins": nb, "resp": resp, "row": j}, out, j,
+                         dict(binamps=wamps, count=wcount), resp, nb))
+    rep = drv.ask(req)
+    for (kind, inp, out, j, worker, resp, nb), r in zip(meta, rep):
+        if r in ("value-error", "bad-op"):
+            ctx.case((kind, repr(inp)), branch="fdeworker:" + r)
+            ctx.disagree("fdepsd-worker-model", inp, "a result", r)
+            continue
+        m = _parse_ff(r)
+        ctx.case((kind, repr(inp), j), nontrivial=True, branch="fdeworker:%s:resp=%s" % (kind, resp))
+        ctx.count("fdeworker:g2-%s" % ("raised" if m["g2max"] != m["amax"] ** 2 else "kept"))
+        ctx.count("fdeworker:nbins=%s" % ("1" if nb == 1 else "2" if nb == 2 else "many"))
+        if kind == "exact" and nb > 1 and np.any(np.isin(m["levels"][1:], np.asarray(out.binamps.values[j])[1:])):
+            pass
+        ok = _cmp_ff(ctx, "worker" if kind == "grid" else "worker-exact", inp, out, j, m, worker)
+        if ok and len(ctx.samples) < 6 and j == 0 and kind == "grid":
+            ctx.sample({"fdepsd-worker": inp, "psd": out.psd.values[j].tolist()})
+    return ["fdeworker:grid:resp=absacce", "fdeworker:grid:resp=pvelo", "fdeworker:exact:resp=absacce", "fdeworker:exact:resp=pvelo",
+            "fdeworker:g2-raised", "fdeworker:g2-kept", "fdeworker:nbins=1", "fdeworker:nbins=2", "fdeworker:nbins=many"]
+
+
 def correspondence(ctx):
     drv = ctx.driver("C10")
     need = _corr_findap(ctx, drv)
     need += _corr_binning(ctx, drv)
+    need += _corr_autobins(ctx, drv)
     need += _corr_fdepsd(ctx, drv)
     need += _corr_fdepsd_exact(ctx, drv)
+    need += _corr_fde_worker(ctx, drv)
     ctx.exhaustive = False
     ctx.require_branches(need)
 
@@ -884,6 +1134,17 @@ def _oracle_binify(ctx, cyc, right, check, specs):
             if bool(flag) != (not (ins(mx) and ins(mn))):
                 ctx.fail("getbins-out-of-bounds-flag-wrong-right=%d" % right, "getbins(check_bounds=True) flag differs from 'mx or mn falls "
                          "outside the bins'", dict(inp, column=col), bool(flag), not (ins(mx) and ins(mn)))
+    # input characteristic (IEEE facts about the data only): for an integer bin count the end-point nudge p = 0.001*(mx - mn) is
+    # below half an ulp of the end point it is applied to, so `bb[0] -= p` / `bb[-1] += p` leaves the edge ON the extreme datum
+    absorbed = False
+    for col, sp in enumerate(specs):
+        if isinstance(sp, int):
+            mx, mn = float(arr[:, col].max()), float(arr[:, col].min())
+            if mx == mn:
+                mx, mn = mx + 0.5, mn - 0.5
+            pp = 0.001 * (mx - mn)
+            absorbed = absorbed or ((mn - pp == mn) if right else (mx + pp == mx))
+    all_auto = all(isinstance(sp, int) for sp in specs)
     try:
         T, ab, mb = cyclecount.binify(arr, specs[0], specs[1], right, retbins=True, use_pandas=False, check_bounds=check)
     except ValueError as e:
@@ -891,8 +1152,12 @@ def _oracle_binify(ctx, cyc, right, check, specs):
             ctx.fail("binify-valueerror-on-valid-bins", "binify raises ValueError for increasing bins", inp, repr(e), "a table")
         return
     except IndexError as e:
-        if check:
-            ctx.fail("binify-indexerror-with-check-bounds", "binify raises IndexError although check_bounds=True", inp, repr(e), "a table")
+        if absorbed and all_auto:
+            ctx.fail(N4, "binify with integer bin counts raises IndexError: the end-point nudge of getbins is absorbed by rounding, the "
+                     "extreme datum sits on the open end of the outer bin", inp, repr(e), "a table whose total is the cycle count")
+        elif check or all_auto:
+            ctx.fail("binify-indexerror-with-check-bounds" if not all_auto else "binify-indexerror-with-auto-bins",
+                     "binify raises IndexError although check_bounds=True / the bins are automatic", inp, repr(e), "a table")
         return
 
     def inside(x, b):
@@ -900,7 +1165,21 @@ def _oracle_binify(ctx, cyc, right, check, specs):
 
     covered = all(inside(a, ab) and inside(m, mb) for a, m, _ in cyc)
     total = sum(c for _, _, c in cyc)
-    if all(isinstance(s, int) for s in specs) and not covered:
+    if all_auto:
+        for name, bb, nbin in (("ampb", ab, specs[0]), ("aveb", mb, specs[1])):
+            if len(bb) != nbin + 1 or not np.all(np.diff(bb) > 0):
+                if absorbed:
+                    break
+                ctx.fail("getbins-auto-edges-not-increasing", "automatically generated bin edges are not %d strictly increasing values" % (nbin + 1),
+                         inp, {name: np.asarray(bb).tolist()}, "bins + 1 strictly increasing edges")
+                return
+    if all_auto and not covered:
+        if absorbed:
+            ctx.fail(N4, "automatically generated bins do not cover the data: the end-point nudge p = 0.001*(mx - mn) is absorbed by "
+                     "rounding, so the extreme datum lies on the open end of the outer bin (right=True: it is counted in the LAST bin "
+                     "through index -1)", inp, {"ampb": ab.tolist(), "aveb": mb.tolist(), "table": np.asarray(T).tolist()},
+                     "every cycle inside the bins (getbins: 'the range is guaranteed to be covered if `bins` is a scalar')")
+            return
         ctx.fail("binify-auto-bins-do-not-cover", "automatically generated bins do not cover the data", inp,
                  {"ampb": ab.tolist(), "aveb": mb.tolist()}, "every cycle inside the bins")
     want = np.zeros((len(mb) - 1, len(ab) - 1))
@@ -973,10 +1252,97 @@ def _oracle_fdepsd(ctx, sig, sr, freq, Q, opts):
             fam = N3 if (resp == "pvelo" and np.all(ds > 0) and np.allclose(lhs, 2.0 ** (b / 2) * ds, rtol=1e-9, atol=0)) \
                 else "fdepsd-test-variance-relation-b=%d-%s" % (b, resp)
             fail(fam, "var_test**(b/2) * di_test != di_sig (documented relation)", (lhs / np.where(ds == 0, 1, ds)).tolist(), "ratio 1.0 for every frequency")
+    # damage cycle by cycle: every cycle contributes (left edge of its amplitude bin)**b * count
+    for j, (resphist, rf) in enumerate(rows):
+        amp, cc = rf[:, 0], rf[:, 2]
+        d = np.abs(amp[:, None] - ba[j][None, :])
+        if np.any((d < 1e-12 * amp.max()) & (d > 0)):
+            continue
+        k = np.searchsorted(ba[j], amp, side="right") - 1
+        for col, b in enumerate((4, 8, 12)):
+            want = float(np.sum(ba[j][k] ** b * cc))
+            if not np.isclose(out.di_sig.values[j, col], want, rtol=1e-10, atol=0):
+                fail("fdepsd-damage-per-cycle-b=%d" % b, "di_sig is not the sum over the cycles of (left edge of the cycle's bin)**b * count",
+                     float(out.di_sig.values[j, col]), want)
+                break
+    # G1/G2 against the documented Mile's-type relation and G2max >= Amax**2; damage-based PSDs from var_test
+    pk = out.peakamp.values
+    lnN0 = np.log(out.freq * opts["T0"])
+    if resp == "absacce":
+        g1 = pk[:, 0] ** 2 / (Q * np.pi * out.freq * lnN0)
+        g2 = pk[:, 1] ** 2 / (Q * np.pi * out.freq * lnN0)
+        gb = out.var_test.values / ((Q * np.pi / 2) * out.freq)[:, None]
+    else:
+        g1 = pk[:, 0] ** 2 * 4 * np.pi * out.freq / (Q * lnN0)
+        g2 = pk[:, 1] ** 2 * 4 * np.pi * out.freq / (Q * lnN0)
+        gb = out.var_test.values * ((4 * np.pi / Q) * out.freq)[:, None]
+    if not (np.allclose(psd[:, 0], g1, rtol=1e-9, atol=0) and np.allclose(psd[:, 1], g2, rtol=1e-9, atol=0)
+            and np.allclose(psd[:, 2:], gb, rtol=1e-9, atol=0)):
+        fail("fdepsd-psd-formula-%s" % resp, "G1/G2 are not the Mile's-type conversion (with T0, Q, f) of the peak amplitudes, or G4/G8/G12 not "
+             "that of var_test", psd.tolist(), np.column_stack((g1, g2, gb)).tolist())
+    # G2: the bound over the levels at or above Amax/3 — G2max is the largest x-intercept of the lines through (0, ln Count_0) and
+    # (binamps_k**2, ln Count_k), never below Amax**2 (restated as a maximum of intercepts; the code picks argmax of a slope)
+    for j in range(len(out.freq)):
+        c0, am = cnt[j, 0], pk[j, 0]
+        if not c0 > 1:
+            continue
+        sel = ba[j] >= am / 3
+        want = am ** 2
+        if sel.any():
+            ck = cnt[j, sel]
+            if np.any(ck >= c0) or np.any(ck <= 0):
+                continue
+            want = max(want, float(np.max(ba[j, sel] ** 2 * np.log(c0) / (np.log(c0) - np.log(ck)))))
+        if not np.isclose(pk[j, 1] ** 2, want, rtol=1e-9, atol=0):
+            fail("fdepsd-G2-not-the-bound-over-levels-from-amax-third", "peakamp G2**2 is not max(Amax**2, largest x-intercept over the levels "
+                 ">= Amax/3)", float(pk[j, 1] ** 2), want)
+            break
+    # the test damage indicator in closed form (Taylor remainder of exp; an expression different from the code's polynomial in
+    # Abar): absacce  Dt_b = 2**(b/2) (b/2)! (N0 - sum_{k<=b/2} u**k/k!),  u = ln N0,  N0 = f*T0;  pvelo (as returned): 2**(b/2) (b/2)! N0
+    N0 = out.freq * opts["T0"]
+    for col, b in enumerate((4, 8, 12)):
+        h = b // 2
+        lead = 2.0 ** h * math.factorial(h)
+        want = lead * (N0 - sum(np.log(N0) ** k / math.factorial(k) for k in range(h + 1))) if resp == "absacce" else lead * N0
+        if not np.allclose(out.di_test.values[:, col], want, rtol=1e-7, atol=0):
+            fail("fdepsd-di-test-formula-%s-b=%d" % (resp, b), "di_test is not the documented function of f*T0 and b", out.di_test.values[:, col].tolist(),
+                 np.asarray(want).tolist())
     # quadratic scaling (power-of-two factor: the float operations commute with it up to pow/log rounding)
     out4 = fdepsd.fdepsd(4.0 * np.asarray(sig), sr, freq, Q, parallel="no", **opts)
     if not np.allclose(out4.psd.values, 16.0 * psd, rtol=1e-9, atol=0) or not np.array_equal(out4.count.values, cnt):
         fail("fdepsd-psd-not-quadratic", "PSD outputs do not scale with the square of the input amplitude", out4.psd.values.tolist(), (16 * psd).tolist())
+    checks = [("binamps", out4.binamps.values, 4.0 * ba), ("peakamp", out4.peakamp.values, 4.0 * pk), ("srs", out4.srs.values, 4.0 * out.srs.values),
+              ("var", out4.var.values, 16.0 * out.var.values), ("var_test", out4.var_test.values, 16.0 * out.var_test.values),
+              ("di_test", out4.di_test.values, out.di_test.values), ("bincount", out4.bincount.values, bc),
+              ("di_sig", out4.di_sig.values, out.di_sig.values * np.array([4.0 ** 4, 4.0 ** 8, 4.0 ** 12]))]
+    for name, a, b_ in checks:
+        if not np.allclose(a, b_, rtol=1e-9, atol=0):
+            fail("fdepsd-scaling-%s" % name, "scaling the signal by 4: `%s` does not scale as stated (amplitudes x4, variances/PSDs x16, "
+                 "di_sig x4**b, counts and di_test unchanged)" % name, np.asarray(a).ravel()[:6].tolist(), np.asarray(b_).ravel()[:6].tolist())
+            break
+
+
+def _oracle_autobins(ctx, nb, data, right):
+    """getbins with an integer count, restated on the API: bins+1 strictly increasing edges whose documented half-open
+    intervals cover [min, max] of the data; then binify with these counts conserves and places (via _oracle_binify)."""
+    from pyyeti import cyclecount
+
+    inp = {"bins": nb, "data": list(data), "right": right}
+    mx, mn = max(data), min(data)
+    bb = np.asarray(cyclecount.getbins(nb, mx, mn, right), dtype=float)
+    bb2, oob = cyclecount.getbins(nb, mn, mx, right, check_bounds=True)  # either order of mx, mn
+    if len(bb) != nb + 1 or not np.all(np.diff(bb) > 0) or not np.array_equal(bb, bb2) or oob is not False:
+        ctx.fail("getbins-auto-edges-not-increasing", "getbins(int): not bins+1 strictly increasing edges, or dependent on the order of "
+                 "mx, mn, or out_of_bounds not False", inp, [bb.tolist(), np.asarray(bb2).tolist(), oob], "bins + 1 increasing edges")
+        return
+    for x in data:
+        hit = [k for k in range(nb) if ((bb[k] < x <= bb[k + 1]) if right else (bb[k] <= x < bb[k + 1]))]
+        if len(hit) != 1:
+            ctx.fail("getbins-auto-bins-do-not-cover-right=%d" % right, "a datum between mn and mx lies in no documented bin interval",
+                     inp, {"edges": bb.tolist(), "datum": x}, "exactly one bin contains it")
+            return
+    cyc = [(abs(a) + 1.0, a, 0.5 if i % 2 else 1.0) for i, a in enumerate(data)]
+    _oracle_binify(ctx, cyc, right, True, [nb, nb])
 
 
 def _bin_cases(ctx, n):
@@ -1039,6 +1405,19 @@ def search(ctx, hints):
         ctx.count("oracle:binify")
         _guard(ctx, "binify", {"cycles": cyc, "right": right, "check_bounds": check, "ampbins": specs[0], "meanbins": specs[1]},
                _oracle_binify, ctx, cyc, right, check, specs)
+    for h in hints[:60]:
+        i = h.get("input", {})
+        if isinstance(i, dict) and "bins" in i and "data" in i:
+            _guard(ctx, "getbins", i, _oracle_autobins, ctx, i["bins"], i["data"], i["right"])
+    for nb, data, right, _ in _autobin_cases(ctx, ctx.pick(400, 4000)):
+        ctx.count("oracle:autobins")
+        _guard(ctx, "getbins", {"bins": nb, "data": data, "right": right}, _oracle_autobins, ctx, nb, data, right)
+    # data whose spread is below ~1e-13 of their magnitude (finding N4): means 1e6 .. 1e6 + 2e-8
+    for right in (True, False):
+        cyc = [(3.0, 1e6, 1.0), (5.0, 1e6 + 1e-8, 0.5), (4.0, 1e6 + 2e-8, 1.0)]
+        ctx.count("oracle:autobins-tiny-spread")
+        _guard(ctx, "binify", {"cycles": cyc, "right": right, "check_bounds": True, "ampbins": 2, "meanbins": 2},
+               _oracle_binify, ctx, cyc, right, True, [2, 2])
     from pyyeti import cyclecount
     for y, _, _ in _gen_signals(ctx, ctx.pick(300, 3000)):
         if len(y) < 3 or len(set(y)) < 2:
@@ -1068,6 +1447,8 @@ def replay(ctx, data):
     dflt, seq, _ = _variants(ctx)
     if "y" in i and "tol" in i:
         _oracle_findap(ctx, dflt, seq, i["y"], i["tol"])
+    elif "bins" in i and "data" in i:
+        _guard(ctx, "getbins", i, _oracle_autobins, ctx, i["bins"], i["data"], i["right"])
     elif "cycles" in i:
         _guard(ctx, "binify", i, _oracle_binify, ctx, [tuple(c) for c in i["cycles"]], i["right"], i["check_bounds"], [i["ampbins"], i["meanbins"]])
     elif "exact_sig" in i:
